@@ -105,6 +105,7 @@ def concretise(rng, case, n):
     year = rng.choice([2021, 2022, 2024])
     days = rng.sample(range(1, 364), nrows)               # distinct days of one year, never Jan 1
     rows, lines = [], []
+    open_quote = False
     for j, cls in enumerate(case["file"]):
         d = datetime.datetime(year, 1, 1) + datetime.timedelta(days=days[j])
         sec = rng.randrange(60)
@@ -125,11 +126,19 @@ def concretise(rng, case, n):
             fields = fields[:-1]
         elif cls == "many":
             fields = fields + [rng.choice(["9", "", "x"])]
-        # valid CSV quoting of some fields
-        fields = ['"%s"' % f if rng.random() < 0.1 else f for f in fields]
+        # valid CSV quoting of some fields (none after a quoted field that is never closed: the rest of the file must not
+        # accidentally close it)
+        if not open_quote:
+            fields = ['"%s"' % f if rng.random() < 0.1 else f for f in fields]
         if cls == "quote":
-            k = rng.randrange(1, len(fields))
-            fields[k] = '1"5'
+            if rng.random() < 0.5:
+                k = rng.randrange(1, len(fields))
+                fields[k] = '1"5'
+            else:
+                # one field too many, and that field opens a quote which is never closed: not CSV either (a reader that tolerates it
+                # swallows the following lines into this field)
+                fields = fields + ['"' + rng.choice(["x", "n/a", "see note"])]
+                open_quote = True
         lines.append(",".join(fields))
         rows.append(dict(id=j + 1, cls=cls, epoch=epoch, ns=ns, vals=vals if loadable else None))
     names = ["Epoch"] + [c for c, _ in cols]
